@@ -64,15 +64,22 @@ def _worker_inner(pid, tier, seed, w, nw, deadline):
     from hypothesis import given, settings, HealthCheck, Phase
     prop = importlib.import_module("vf.props." + pid)
     out = {}
-    for sc in prop.subchecks(tier):
-        if sc.custom is not None:
-            continue
+    scs_ = [x for x in prop.subchecks(tier) if x.custom is None]
+
+    def _weight(x):
+        # expected cost share of a sub-check: its case count (long-run / child-process sub-checks have few, expensive cases)
+        n_ = x.n.get(tier, 0) if isinstance(getattr(x, "n", None), dict) else 0
+        return float(max(n_, 600))
+    for idx, sc in enumerate(scs_):
+        # every sub-check gets its share of the time that is left, so that a slow early sub-check cannot starve the later ones
+        left = deadline - time.time()
+        sub_deadline = time.time() + max(left, 0.0) * _weight(sc) / sum(_weight(x) for x in scs_[idx:])
         acc = {"evaluations": 0, "nontrivial": set(), "classes": Counter(), "violations": [], "aborted": Counter(),
                "budget_hit": 0, "samples": [], "best": None, "skipped_deadline": 0, "events": 0,
                "pairs": set(), "abort_examples": {}}
 
-        def body(case, sc=sc, acc=acc):
-            if time.time() > deadline:
+        def body(case, sc=sc, acc=acc, sub_deadline=sub_deadline):
+            if time.time() > sub_deadline:
                 acc["skipped_deadline"] += 1
                 return
             o = sc.execute(case)
